@@ -99,7 +99,7 @@ impl SignatureConverter<'_> {
                 let input = sig.inputs.first_mut().unwrap();
                 let input_span = input.span();
                 match input {
-                    syn::FnArg::Typed(pat_type) => match pat_type.ty.as_ref() {
+                    syn::FnArg::Typed(pat_type) => match crate::generics::peel_type(&pat_type.ty) {
                         syn::Type::Reference(type_reference) => {
                             let and_token = type_reference.and_token;
                             let lifetime = type_reference.lifetime.clone();
